@@ -645,6 +645,26 @@ func checkC11(e *Engine, r *Report) {
 		r.Check(okV && okH && okE, "VerifySignature › match = (recover(hash(tm, chainId), sig) == expected)", e.Pos(vs.Pos()), "Ecrecover over EIP712HashingTypedMessage(tm, chainId); match = recovered == expectedAddress", "the signature check does not compare the address recovered over the typed-data hash for this chain id with the expected address")
 	})
 
+	r.Rule("R7", "EFFECT", "views mirror native queries, which change nothing: no read-only staking executor reaches a store write, event or log over the call graph — in particular the distribution querier's period increment stays on a discarded cache context (a view that closes a validator's reward period changes every later reward through the 18-decimal truncation; shared with C12-R2)", 5, func() {
+		ee := e.Effects()
+		n := 0
+		for _, x := range executorCensus(e) {
+			if !strings.HasPrefix(x.Name(), "stakingCustomPrecompiledContractRo") {
+				continue
+			}
+			n++
+			hits := ee.Reach(x.Execute, EffectOpts{MaxHits: 2})
+			key := "view writes nothing › " + x.Name()
+			if len(hits) == 0 {
+				r.OK(key, e.Pos(x.Execute.Pos()), "no effect sink reachable")
+			} else {
+				d, p := describeHits(hits)
+				r.Bad(key, e.Pos(x.Execute.Pos()), "a staking view can reach: "+d+" — the state it leaves differs from what the native query (which writes nothing) leaves", p...)
+			}
+		}
+		r.Count("staking_views", n)
+	})
+
 	r.Rule("R6", "ROUND-ONCE", "view methods report the native numbers: a view (read-only staking executor or its helper) never accumulates values that were each rounded (TruncateInt / RoundInt / TruncateInt64 …) inside a loop — the native queries round their total once, and a sum of truncated parts falls short of the truncated sum by up to n−1 units", 1, func() {
 		isRounding := func(v ssa.Value) bool {
 			c, ok := v.(*ssa.Call)
